@@ -142,6 +142,17 @@ int main(int argc, char **argv)
             if (seen.insert(k).second) { lasth = nh; if (nh.size() < (size_t)depth) frontier.push_back(nh); }
         }
     }
+    /* many holders of one value: 2, 255, 256, 257, 300, 65537 copies; writing through one of them (every way of writing) leaves all the others as they were */
+    { static const int counts[] = {2, 255, 256, 257, 300, 65537};
+      for (unsigned ci = 0; ci < sizeof counts / sizeof counts[0]; ci++) for (int way = 0; way < 5; way++) {
+        int n = counts[ci]; std::vector<byte_array> v; byte_array first(20, 7); v.reserve(n); for (int i = 0; i < n; i++) v.push_back(first);
+        byte_array &w = v[n / 2]; asan_hit = 0;
+        switch (way) { case 0: w[3] = 9; break; case 1: w.data()[3] = 9; break; case 2: *(w.begin() + 3) = 9; break; case 3: w.resize(10); break; default: w.push_back(9); break; }
+        bool ok = first.size() == 20; for (size_t k = 0; ok && k < 20; k++) ok = first[k] == 7;
+        for (int i = 0; ok && i < n; i += (n > 1000 ? 997 : 1)) if (i != n / 2) { const byte_array &o = v[i]; ok = o.size() == 20; for (size_t k = 0; ok && k < 20; k++) ok = o.data()[k] == 7; }
+        transitions++;
+        if (!ok || asan_hit) { hx_fail("byte_array:semantics:many-holders", "%d arrays hold one value; writing through one of them (way %d: index / data() / iterator / resize / push_back) %s", n, way, asan_hit ? "raised a memory error" : "changed another one"); break; }
+      } }
     if (iterbad & 2) hx_fail("byte_array:semantics:iterate", "end() - begin() is not size(), or the const iterators disagree");
     if (iterbad & 1) hx_fail("byte_array:semantics:iterate", "iterator and const_iterator sums disagree");
     hx_stat("states", (long long)seen.size()); hx_stat("transitions", transitions); hx_stat("traces_validated", transitions);
